@@ -252,6 +252,44 @@ pub enum CLike {
     #[serde(rename = "deep-blue")]
     DeepBlue,
 }
+/// A colour: scalar-like, annotated, and used as a body, as a query parameter and as a path parameter.
+#[derive(Serialize, Deserialize, JsonSchema, Clone, Copy)]
+#[serde(rename_all = "snake_case")]
+#[schemars(example = "ex_color", title = "A colour")]
+pub enum ExColor {
+    Red,
+    Green,
+}
+fn ex_color() -> ExColor {
+    ExColor::Green
+}
+/// An identifier (newtype over a string) with an example.
+#[derive(Serialize, Deserialize, JsonSchema, Clone)]
+#[schemars(example = "ex_id")]
+pub struct ExId(pub String);
+fn ex_id() -> ExId {
+    ExId("id-1".into())
+}
+#[derive(Deserialize, JsonSchema)]
+pub struct ParamQuery {
+    pub color: Option<ExColor>,
+    pub id: Option<ExId>,
+    pub plain: Option<CLike>,
+}
+#[derive(Deserialize, JsonSchema)]
+pub struct ParamPath {
+    pub pcolor: ExColor,
+    pub pid: ExId,
+}
+async fn param_user(_rq: RequestContext<()>, _p: dropshot::Path<ParamPath>, _q: dropshot::Query<ParamQuery>) -> Result<HttpResponseOk<()>, HttpError> {
+    Ok(HttpResponseOk(()))
+}
+/// An endpoint that uses some of the zoo's named types as parameter types (not in a body).
+pub fn register_param_user(api: &mut ApiDescription<()>) -> Result<(), String> {
+    api.register(ApiEndpoint::new("param_user".to_string(), param_user, http::Method::GET, "application/json", "/params/{pcolor}/{pid}", ApiEndpointVersions::All))
+        .map_err(|e| e.to_string())
+}
+
 #[derive(Serialize, Deserialize, JsonSchema)]
 pub struct Tree {
     pub label: String,
